@@ -875,7 +875,9 @@ func ruleC18Selection(c *Ctx) {
 				a, ok := callArgs(x, "ToInt")
 				return ok && onlyArg(a[0], "0")
 			},
-			"array": func(t *Term) bool { return t != nil && (t.Op == "slice" || t.Op == "varargs" || strings.Contains(t.String(), "alloc")) },
+			"array": func(t *Term) bool {
+				return t != nil && (t.Op == "slice" || t.Op == "varargs" || strings.Contains(t.String(), "alloc"))
+			},
 		}
 		for _, l := range []string{"string", "double", "integer", "array"} {
 			p := paths[l]
@@ -982,44 +984,76 @@ func ruleC18Pure(c *Ctx) {
 		if f == nil {
 			continue // reported by c18.registry
 		}
-		seen := map[*ssa.Function]bool{}
-		var bad []string
-		var visit func(g *ssa.Function, d int)
-		visit = func(g *ssa.Function, d int) {
-			if seen[g] || d > 6 || !c.P.InModule(g) || len(g.Blocks) == 0 {
-				return
-			}
-			seen[g] = true
-			allInstrs(g, func(_ *ssa.BasicBlock, in ssa.Instruction) {
-				for _, op := range in.Operands(nil) {
-					gl, ok := (*op).(*ssa.Global)
-					if !ok || gl.Pkg == nil || !strings.HasPrefix(gl.Pkg.Pkg.Path(), modPath) {
+		bad, nSeen := c.packageStateUses(f)
+		c.Check(len(bad) == 0, "c18.pure", "registered:"+name, c.P.Pos(f.Pos()), fmt.Sprintf("%d module functions, no package-level state", nSeen), strings.Join(uniq(bad), "; "))
+	}
+}
+
+// packageStateUses: the uses of package-level variables of the module (other than error sentinels that are only read and
+// read-only dispatch tables) in f and in every module function it calls statically or hands a function literal to.
+func (c *Ctx) packageStateUses(f *ssa.Function) (bad []string, nFuncs int) {
+	seen := map[*ssa.Function]bool{}
+	var visit func(g *ssa.Function, d int)
+	visit = func(g *ssa.Function, d int) {
+		if seen[g] || d > 6 || !c.P.InModule(g) || len(g.Blocks) == 0 {
+			return
+		}
+		seen[g] = true
+		allInstrs(g, func(_ *ssa.BasicBlock, in ssa.Instruction) {
+			for _, op := range in.Operands(nil) {
+				gl, ok := (*op).(*ssa.Global)
+				if !ok || gl.Pkg == nil || !strings.HasPrefix(gl.Pkg.Pkg.Path(), modPath) {
+					continue
+				}
+				if pt, isP := gl.Type().Underlying().(*types.Pointer); isP && isErrorSentinelType(pt.Elem()) {
+					if _, isStore := in.(*ssa.Store); !isStore {
 						continue
 					}
-					if pt, isP := gl.Type().Underlying().(*types.Pointer); isP && isErrorSentinelType(pt.Elem()) {
-						if _, isStore := in.(*ssa.Store); !isStore {
-							continue
-						}
-					}
-					if roTableOf(gl) != nil {
-						continue // a read-only dispatch table: a constant of the program
-					}
-					bad = append(bad, fmt.Sprintf("%s uses the package-level variable %s at %s", c.P.funcKey(g), gl.Name(), c.P.Pos(in.Pos())))
 				}
-				if call, isCall := in.(ssa.CallInstruction); isCall {
-					if cal := call.Common().StaticCallee(); cal != nil {
-						visit(cal, d+1)
-					}
-					for _, a := range call.Common().Args {
-						if mc, isMC := a.(*ssa.MakeClosure); isMC {
-							visit(mc.Fn.(*ssa.Function), d+1)
-						}
+				if roTableOf(gl) != nil {
+					continue // a read-only dispatch table: a constant of the program
+				}
+				bad = append(bad, fmt.Sprintf("%s uses the package-level variable %s at %s", c.P.funcKey(g), gl.Name(), c.P.Pos(in.Pos())))
+			}
+			if call, isCall := in.(ssa.CallInstruction); isCall {
+				if cal := call.Common().StaticCallee(); cal != nil {
+					visit(cal, d+1)
+				}
+				for _, a := range call.Common().Args {
+					if mc, isMC := a.(*ssa.MakeClosure); isMC {
+						visit(mc.Fn.(*ssa.Function), d+1)
 					}
 				}
-			})
+			}
+		})
+	}
+	visit(f, 0)
+	return bad, len(seen)
+}
+
+func init() {
+	register("C16", ruleParsePure)
+	register("C17", ruleParsePure)
+	register("C12", ruleParsePure)
+	register("C13", ruleParsePure)
+}
+
+// ruleParsePure: from text to statement nothing is remembered.
+func ruleParsePure(c *Ctx) {
+	c.Doc("parse.pure", "the way from the query text to the parsed statement keeps no state between calls: Parse and the text rewriters of the dialect options (DoubleQuotesToBackTick, FixIdiomaticArray, FindArrayIndex) and everything they call in the module touch no package-level variable — a statement or rewrite cache keyed by the text, or by a normalised form of it, serves one query's text, literals included, to another query (white space inside a string literal is content, the options in force are not part of the text)")
+	n := 0
+	for _, name := range []string{"Parse", "DoubleQuotesToBackTick", "FixIdiomaticArray", "FindArrayIndex"} {
+		f := c.P.Func(modPath, name)
+		if f == nil {
+			continue
 		}
-		visit(f, 0)
-		c.Check(len(bad) == 0, "c18.pure", "registered:"+name, c.P.Pos(f.Pos()), fmt.Sprintf("%d module functions, no package-level state", len(seen)), strings.Join(uniq(bad), "; "))
+		n++
+		c.Fn(name)
+		bad, k := c.packageStateUses(f)
+		c.Check(len(bad) == 0, "parse.pure", name, c.P.Pos(f.Pos()), fmt.Sprintf("%d module functions, no package-level state", k), strings.Join(uniq(bad), "; "))
+	}
+	if n < 3 {
+		c.Unknown("parse.pure", "anchors", "-", fmt.Sprintf("only %d of Parse and the text rewriters found", n))
 	}
 }
 
@@ -1136,7 +1170,6 @@ func ruleC18ArgReader(c *Ctx) {
 	}
 	c.Check(len(why) == 0, "c18.arg-reader", "FuncArgReader", c.P.Pos(f.Pos()), "fresh non-nil list; one unwrapped evaluation per argument, in order", strings.Join(uniq(why), "; "))
 }
-
 
 func init() { register("C18", ruleC18TextOf) }
 
